@@ -184,6 +184,7 @@ def run(prog, R):
     scanners.exponent_markers(prog, R, "C15.3-exponent-markers")
     scanners.leading_zero_check(prog, R, "C15.3-leading-zero-continues")
     scanners.keyword_prefix_check(prog, R, "C15.2-keyword-prefix-consumption")
+    scanners.pound_arm_check(prog, R, "C15.2-pound-words")
     scanners.whitespace_check(prog, R, "C15.5-whitespace-class")
     # word-like lexer directives (`OPENQASM`, `pragma`, `#pragma`) are recognised only when whitespace follows the
     # word: otherwise an identifier that merely starts with it (`pragma2`, `OPENQASMx`) would change its token class
